@@ -22,12 +22,12 @@ VARIABLE done
 Init == done = FALSE
 PropPart(d) ==
   \A i \in DOMAIN Ns : \A li \in Levs : \A ki \in 1..3 : \A k \in 0..Ns[i] :
-     (Thorough \/ Ns[i] <= 200 \/ li = 12) =>
+     (Thorough \/ Ns[i] <= 200 \/ li \in {12, 14}) =>
      Emit([op |-> "prop.ci", fe |-> "ci", n |-> Ns[i], k |-> k, conf |-> Conf(ki, li), li |-> li,
            first |-> k = 0, last |-> k = Ns[i], den |-> B])
 QuantPart(d) ==
   \A i \in DOMAIN Ns : \A li \in Levs : \A ki \in 1..3 : \A a \in 1..(B - 1) :
-     (Thorough \/ Ns[i] <= 200 \/ li = 12) =>
+     (Thorough \/ Ns[i] <= 200 \/ li \in {12, 14}) =>
      Emit([op |-> "quant.ranks", n |-> Ns[i], a |-> a, den |-> B, q |-> [num |-> a, den |-> B],
            conf |-> Conf(ki, li), li |-> li, first |-> a = 1, last |-> a = B - 1])
 Next == /\ ~done
